@@ -836,6 +836,56 @@ def arith_assign(env, lang='c'):
     return assign
 
 
+def compile_poly(p, leaf, lang='c'):
+    """Poly -> python function of one dict argument `v` (values of the leaves), for evaluating a closed arithmetic form on
+    every point of a finite domain.  leaf(atom) -> python expression text for 'sym' / 'fn' atoms (e.g. "v['y']"), or None."""
+    def td(a, b):
+        q = abs(a) // abs(b)
+        return q if (a >= 0) == (b >= 0) else -q
+
+    def tm(a, b):
+        return a - td(a, b) * b
+
+    def key_src(key):
+        return poly_src(Poly(dict(key)))
+
+    def atom_src(a):
+        k = a[0]
+        if k in ('sym', 'fn'):
+            s = leaf(a)
+            if s is None:
+                raise AnalysisError('cannot evaluate the leaf %r of the formula' % (a,))
+            return s
+        if k in ('tdiv', 'fdiv', 'div', 'tmod', 'fmod', 'mod'):
+            x, y = key_src(a[1]), key_src(a[2])
+            if k == 'tdiv' or (k == 'div' and lang == 'c'):
+                return '_td(%s, %s)' % (x, y)
+            if k in ('fdiv', 'div'):
+                return '((%s) // (%s))' % (x, y)
+            if k == 'tmod' or (k == 'mod' and lang == 'c'):
+                return '_tm(%s, %s)' % (x, y)
+            return '((%s) %% (%s))' % (x, y)
+        if k == 'cmp':
+            op = {'&&': 'and', '||': 'or'}.get(a[1], a[1])
+            return 'int((%s) %s (%s))' % (key_src(a[2]), op, key_src(a[3]))
+        if k == 'not':
+            return 'int(not (%s))' % key_src(a[1])
+        if k in ('and', 'or', 'xor'):
+            return '((%s) %s (%s))' % (key_src(a[1]), {'and': '&', 'or': '|', 'xor': '^'}[k], key_src(a[2]))
+        if k == 'cond':
+            return '((%s) if (%s) else (%s))' % (key_src(a[2]), key_src(a[1]), key_src(a[3]))
+        raise AnalysisError('cannot evaluate the atom %r of the formula' % (a,))
+
+    def poly_src(q):
+        terms = []
+        for mono, c in q.t.items():
+            parts = [str(c)] + [atom_src(a) for a in mono]
+            terms.append('*'.join('(%s)' % x for x in parts))
+        return ' + '.join(terms) if terms else '0'
+    src = 'lambda v: ' + poly_src(p)
+    return eval(src, {'_td': td, '_tm': tm})
+
+
 def eval_formula(f, assign):
     k = f[0]
     if k == 'true':
